@@ -16,6 +16,7 @@ import (
 	tmtypes "github.com/tendermint/tendermint/types"
 	dbm "github.com/tendermint/tm-db"
 
+	"github.com/pokt-network/posmint/codec"
 	"github.com/pokt-network/posmint/crypto"
 	sdk "github.com/pokt-network/posmint/types"
 	"github.com/pokt-network/posmint/x/auth"
@@ -148,7 +149,8 @@ func (f *Fam) guard(fn func() string) (res string) {
 			if len(msg) > 120 {
 				msg = msg[:120]
 			}
-			res = "halt " + strings.ReplaceAll(msg, "\n", " ")
+			f.extra["halt:"+strings.ReplaceAll(msg, "\n", " ")]++
+			res = "halt"
 		}
 	}()
 	return fn()
@@ -450,6 +452,14 @@ func (f *Fam) doTx(w []string) (string, []byte, sdk.Msg, txSpec) {
 		case "simulate":
 			r := f.app.Query(abci.RequestQuery{Path: "/app/simulate", Data: bz})
 			code, log = r.Code, r.Log
+			if r.Code == 0 { // the simulation result travels inside the query value
+				var sr sdk.Result
+				if err := codec.Cdc.UnmarshalBinaryLengthPrefixed(r.Value, &sr); err != nil {
+					code = 999
+				} else {
+					code, log = uint32(sr.Code), sr.Log
+				}
+			}
 		}
 		if code == 0 {
 			return "ok"
